@@ -33,6 +33,21 @@ def kwd(kw):
     return json.dumps(kw, sort_keys=True, separators=(",", ":"), default=lambda o: "<%s@%d>" % (type(o).__name__, id(o)))
 
 
+def _canon(i, reg):
+    """harness-side canonical spelling, only used to look up what the implementation stored (never judged)"""
+    import re
+
+    m = re.fullmatch(r"(.+)-v(\d+)", i)
+    return None if not m else f"{m.group(1)}-v{int(m.group(2))}"
+
+
+def _entry_of(post, i, reg):
+    for k in (i, _canon(i, reg)):
+        if k is not None and k in post:
+            return [post[k][0], post[k][1]]
+    return ["none", "none"]
+
+
 def chars(s):
     return list(s)
 
@@ -107,6 +122,12 @@ def drive_ops(tier, seed):
         ops.append(("register", i, "Q", {}))
         ops.append(("make", i, None, {}))
         ops.append(("make", i, None, {"y": 5, "z": 6}))
+    # non-canonical spellings of a version (leading zeros): the registry is keyed by (name, int(version))
+    ops.append(("register", "Probe-v007", "P", {"x": 7}))
+    ops.append(("register", "Probe-v7", "Q", {}))
+    ops.append(("make", "Probe-v7", None, {}))
+    ops.append(("make", "Probe-v007", None, {"x": 8}))
+    ops.append(("make", "Probe-v01", None, {}))
     ops.append(("make", "Nope-v0", None, {}))
     ops.append(("register", "Probe", "P", {}))           # version-less: refused
     ops.append(("register", "bad id-v1", "P", {}))        # malformed
@@ -120,7 +141,7 @@ def drive_ops(tier, seed):
             sid += 1
             reg._REGISTRY.clear()
             reg._REGISTRY.update(saved)
-            evs.append({"k": "seq_start", "sid": sid, "ids": sorted(reg._REGISTRY)})
+            evs.append({"k": "seq_start", "sid": sid, "ids": [chars(x) for x in sorted(reg._REGISTRY)]})
             for oi in seq:
                 op, i, ep, kw = ops[oi]
                 pre = {k: (v.entry_point, kwd(v.kwargs)) for k, v in reg._REGISTRY.items()}
@@ -134,9 +155,9 @@ def drive_ops(tier, seed):
                         oc = "raise:" + type(e).__name__
                     post = {k: (v.entry_point, kwd(v.kwargs)) for k, v in reg._REGISTRY.items()}
                     evs.append({"k": "register", "sid": sid, "id": i, "id_chars": chars(i), "entry": ep, "kwargs": sorted(kw.items()),
-                                "outcome": oc, "pre_ids": sorted(pre), "post_ids": sorted(post),
+                                "outcome": oc, "pre_ids": [chars(x) for x in sorted(pre)], "post_ids": [chars(x) for x in sorted(post)],
                                 "others_unchanged": all(post.get(k) == pre[k] for k in pre),
-                                "new_entry": [post[i][0], post[i][1]] if i in post else ["none", "none"],
+                                "new_entry": _entry_of(post, i, reg),
                                 "expected_entry": [eps[ep], kwd(dict(kw))]})
                 else:
                     try:
@@ -152,14 +173,16 @@ def drive_ops(tier, seed):
                     except Exception as ex:  # noqa: BLE001
                         oc, cls, seen, msg_ids = "raise:" + type(ex).__name__, "none", [], []
                     post_entries = {k: (v.entry_point, kwd(v.kwargs)) for k, v in reg._REGISTRY.items()}
-                    regd = pre.get(i)
-                    evs.append({"k": "make", "sid": sid, "id": i, "call_kwargs": sorted(kw.items()), "outcome": oc, "class": cls,
-                                "seen_kwargs": [[k, v] for k, v in seen], "pre_ids": sorted(pre),
-                                "registered": i in pre,
+                    ci = _canon(i, reg)
+                    regd = pre.get(ci) if ci is not None else None
+                    evs.append({"k": "make", "sid": sid, "id": i, "id_chars": chars(i), "call_kwargs": sorted(kw.items()),
+                                "outcome": oc, "class": cls,
+                                "seen_kwargs": [[k, v] for k, v in seen], "pre_ids": [chars(x) for x in sorted(pre)],
+                                "registered": regd is not None,
                                 "registered_entry": regd[0].split(":")[1] if regd else "none",
                                 "registered_kwargs": sorted(json.loads(regd[1]).items()) if regd else [],
-                                "listed_ids": msg_ids, "entries_unchanged": post_entries == pre,
-                                "post_ids": sorted(reg._REGISTRY)})
+                                "listed_ids": [chars(x) for x in msg_ids], "entries_unchanged": post_entries == pre,
+                                "post_ids": [chars(x) for x in sorted(reg._REGISTRY)]})
     finally:
         reg._REGISTRY.clear()
         reg._REGISTRY.update(saved)
